@@ -282,23 +282,46 @@ func ruleTemporalClauses(c *core.Ctx) {
 		sort.Strings(ootCols)
 		c.Check(eqStrings(pitCols, []string{"effective_date", "insertion_date"}) && eqStrings(ootCols, pitCols), "TEMP/volumes-date-mode", declKey(d)+":both-bounds-same-mode", pos(c, d.Decl),
 			"PIT and OOT both range over {effective_date, insertion_date}", fmt.Sprintf("PIT is applied to %v but OOT to %v: both bounds must use the date column selected by UseInsertionDate", pitCols, ootCols))
-		// the selector variable is switched by Opts.UseInsertionDate
-		switched := false
-		ast.Inspect(d.Decl.Body, func(n ast.Node) bool {
-			is, ok := n.(*ast.IfStmt)
-			if !ok || !strings.HasSuffix(astx.SelectorPath(is.Cond), ".UseInsertionDate") {
-				return true
-			}
-			for _, st := range is.Body.List {
-				if as, ok := st.(*ast.AssignStmt); ok && len(as.Rhs) == 1 {
-					if v, ok := astx.ConstString(d.Pkg.TypesInfo, as.Rhs[0]); ok && v == "insertion_date" {
-						switched = true
+		// the date column is selected by Opts.UseInsertionDate: its positive side yields insertion_date
+		switched, inverted, seenIf := false, false, false
+		for _, env := range scopeEnvsDepth(c, d, 2) {
+			env := env
+			ast.Inspect(env.d.Decl.Body, func(n ast.Node) bool {
+				is, ok := n.(*ast.IfStmt)
+				if !ok || !strings.HasSuffix(env.origin(is.Cond), ".UseInsertionDate") {
+					return true
+				}
+				seenIf = true
+				for _, st := range is.Body.List {
+					var vals []ast.Expr
+					switch x := st.(type) {
+					case *ast.AssignStmt:
+						vals = x.Rhs
+					case *ast.ReturnStmt:
+						vals = x.Results
+					}
+					for _, v := range vals {
+						switch cs, _ := constStr(env.info, v); cs {
+						case "insertion_date":
+							switched = true
+						case "effective_date":
+							inverted = true
+						}
 					}
 				}
-			}
-			return true
-		})
-		c.Check(switched, "TEMP/volumes-date-mode", declKey(d)+":switch", pos(c, d.Decl), "UseInsertionDate selects insertion_date", "Opts.UseInsertionDate no longer selects insertion_date as the date column")
+				return true
+			})
+		}
+		switch {
+		case inverted:
+			c.Fail("TEMP/volumes-date-mode", declKey(d)+":switch", pos(c, d.Decl), "Opts.UseInsertionDate selects effective_date: the two date modes are swapped")
+		case switched:
+			c.Pass("TEMP/volumes-date-mode", declKey(d)+":switch", pos(c, d.Decl), "UseInsertionDate selects insertion_date")
+		case !seenIf && len(pitCols) == 2:
+			c.Unrecognised("TEMP/volumes-date-mode", declKey(d)+":switch", pos(c, d.Decl), "the selection of the date column is not an `if …UseInsertionDate` the rule reads")
+		default:
+			c.Fail("TEMP/volumes-date-mode", declKey(d)+":switch", pos(c, d.Decl), "Opts.UseInsertionDate no longer selects insertion_date as the date column")
+		}
 	}
 
 	// required filters
